@@ -69,10 +69,7 @@ fn value_prop(model: &Model, queries: &[usize], tape: &[u32], st: &mut Stats) ->
     if resp.last() != Some(&b'\n') {
         return Err(ctx("response does not end with a newline".into()));
     }
-    let flushes = out.log.iter().filter(|e| matches!(e, Ev::Flush)).count();
-    if flushes != 1 {
-        return Err(ctx(format!("{} flushes for one response", flushes)));
-    }
+    // (the response item above already requires: bytes, then a flush, nothing after it)
     check_response(&d.ret, &v, &resp[..resp.len() - 1]).map_err(|e| ctx(format!("response '{}': {}", esc(&resp), e)))?;
 
     // (2) heapless::Vec with room, (3) std Vec, (4) through process: identical bytes
@@ -90,9 +87,10 @@ fn value_prop(model: &Model, queries: &[usize], tape: &[u32], st: &mut Stats) ->
         if written != resp {
             return Err(ctx(format!("process wrote '{}' instead of '{}'", esc(&written), esc(&resp))));
         }
-        let aflush = po.log.iter().filter(|e| matches!(e, Ev::AFlush)).count();
-        if aflush != 1 {
-            return Err(ctx(format!("process flushed the transport {} times for one response", aflush)));
+        let last_write = po.log.iter().rposition(|e| matches!(e, Ev::AWrite(_)));
+        let last_flush = po.log.iter().rposition(|e| matches!(e, Ev::AFlush));
+        if last_flush.is_none() || last_flush < last_write {
+            return Err(ctx("process did not flush the transport after writing the response".into()));
         }
     }
     else {
@@ -162,13 +160,13 @@ fn message_prop(model: &Model, queries: &[usize], tape: &[u32], st: &mut Stats) 
                 plans.push(UnitPlan::Silent("failing handler"));
             }
             3 => {
-                // ARG:Q1? wants a u32
-                msg.extend_from_slice(b"ARG:Q1? ");
+                // ARG:QONE? wants a u32
+                msg.extend_from_slice(b"ARG:QONE? ");
                 msg.extend_from_slice([&b"'x'"[..], b"-1", b"4294967296", b"#15hello", b"ON"][t.below(5)]);
                 plans.push(UnitPlan::Silent("rejected argument"));
             }
             4 => {
-                msg.extend_from_slice(b"RET:U8? 1");
+                msg.extend_from_slice(b"RET:UBYTE? 1");
                 plans.push(UnitPlan::Silent("parameter count"));
             }
             _ => {
